@@ -87,7 +87,12 @@ def impl_eval(case):
         if st != 'ok':
             return {'obs': st, 'violation': f'to_enc_bytes raised {st}', 'tags': ['enc0']}
         enc, clear = res
-        st2, back = guarded(lambda: cls.from_enc_bytes(enc, key, card_number=pan).pin)
+        if case.get('form') == 'pos':
+            st2, back = guarded(lambda: cls.from_enc_bytes(enc, key, pan).pin)       # card number by position
+        elif case.get('form') == 'allkw':
+            st2, back = guarded(lambda: cls.from_enc_bytes(enc_pin_block=enc, key=key, card_number=pan).pin)
+        else:
+            st2, back = guarded(lambda: cls.from_enc_bytes(enc, key, card_number=pan).pin)
         ref = refdes.tdes_ecb(clear, binascii.unhexlify(key))
         if enc != ref:
             why = 'encrypted block is not the 3DES-ECB encryption of the clear block under the key (DES reference)'
@@ -212,10 +217,25 @@ def explore(run, tier):
                 key = k1 + k1
             else:
                 key = [k1 + k1 + k3, k1 + k2 + k2, k1 + k2 + k1, k1 + k1 + k1][shape]
-        cases.append({'k': 'enc0', 'pin': digits(pl), 'pan': digits(13 + i % 7), 'key': key})
+        cases.append({'k': 'enc0', 'pin': digits(pl), 'pan': digits(13 + i % 7), 'key': key,
+                      'form': ['kw', 'pos', 'allkw'][i % 3]})
         akey = bytes(rng.getrandbits(8) for _ in range([16, 24, 32][i % 3])).hex()
         cases.append({'k': 'enc4', 'pin': digits(pl), 'rnd': rng.getrandbits(64) or 1, 'key': akey})
         if i % 4 == 0:
             cases.append({'k': 'enc4tdes', 'pin': digits(pl), 'rnd': rng.getrandbits(64) or 1, 'key': key})
             cases.append({'k': 'iso4same', 'pin': digits(pl), 'key': akey})
+    # key components with a special structure — the DES weak and semi-weak keys, all-zero, all-one, odd-parity-adjusted
+    # and not: a key is a key, every one of them encrypts (the reference DES has no notion of an unacceptable key)
+    special = ['0101010101010101', 'fefefefefefefefe', 'e0e0e0e0f1f1f1f1', '1f1f1f1f0e0e0e0e', '01fe01fe01fe01fe',
+               'fe01fe01fe01fe01', '1fe01fe00ef10ef1', '0000000000000000', 'ffffffffffffffff', '0123456789abcdef',
+               'FEDCBA9876543210']
+    for i, sp in enumerate(special):
+        other = bytes(rng.getrandbits(8) for _ in range(8)).hex()
+        other2 = bytes(rng.getrandbits(8) for _ in range(8)).hex()
+        for j, key in enumerate((sp + other, other + sp, sp + other + other2, other + sp + other2, other + other2 + sp,
+                                 sp + special[(i + 1) % len(special)])):
+            cases.append({'k': 'enc0', 'pin': digits(4 + (i + j) % 9), 'pan': digits(13 + (i + j) % 7), 'key': key,
+                          'form': ['kw', 'pos'][(i + j) % 2]})
+            if j % 2 == 0:
+                cases.append({'k': 'enc4tdes', 'pin': digits(4 + (i + j) % 9), 'rnd': rng.getrandbits(64) or 1, 'key': key})
     run.correspond(__name__, cases, use_model=run.use_model, chunk=300)
